@@ -1,7 +1,8 @@
 """Common runner: property checks return a Report; main() writes evidence, prints VIOLATION /
 KNOWN-FINDING lines and chooses the exit code.
 
-Exit codes: 0 held (KNOWN-FINDING lines allowed) / 1 violation / 3 checker error (no VIOLATION line).
+Exit codes: 0 held (KNOWN-FINDING lines allowed) / 1 violation / 2 undecided (obligations discharged on the pinned tree can no longer be
+generated: untranslatable body or wall limit; no VIOLATION line) / 3 checker error (no VIOLATION line).
 """
 from __future__ import annotations
 
@@ -264,6 +265,11 @@ def finish(rep: Report, tier: str, seed: int, t0: float) -> int:
         for e in rep.errors[:5]:
             print("CHECKER-ERROR: " + e[:500], file=sys.stderr)
         return 3
+    und = rep.extra.get("undecided_locked_targets") or []
+    if und and not seen:
+        for u in und[:5]:
+            print("UNDECIDED property=%s %s" % (rep.property_id, u[:400]))
+        return 2
     return 1 if seen else 0
 
 
